@@ -173,6 +173,63 @@ def run_func(c):
     return None
 
 
+INT_SCALES = [1, 1000, 4_000_000_000]
+
+
+def run_intdtype(c):
+    """the functional interface with whole-number parameters: the same numbers as int64 arrays, as nested lists of Python ints
+    and as float arrays are the same input (array_like), whatever their magnitude (a metre-sized body written in nanometres)"""
+    import magpylib as magpy
+
+    cls, K, field = c["cls"], c["scale"], c["field"]
+    name = {"Polyline_seg": "Polyline"}.get(cls, cls)
+    n = 2
+    fkw, obs = {}, []
+    exc_l, geo_l, pos_l = [], [], []
+    _, (ename, gname) = spec(cls, 0)
+    for i in range(n):
+        ck, _ = spec(cls, i)
+        e = np.round(np.array(ck[ename], float) * 10 * K)
+        exc_l.append(e)
+        if gname == "mesh":
+            g = np.round(np.array(ck["vertices"])[np.array(ck["faces"])] * 20 * K)
+        elif gname == "segments":
+            g = np.round(np.array(ck["vertices"]) * 20 * K)
+        elif gname is not None:
+            g = np.array(ck[gname], float) * 20 * K
+            if cls == "CylinderSegment":
+                g[3:] = np.array(ck[gname], float)[3:]
+            g = np.round(g)
+        else:
+            g = None
+        geo_l.append(g)
+        pos_l.append(np.round(pose(i)[0] * 20 * K))
+        obs.append(np.round(observer(i) * 20 * K))
+    fkw[ename] = np.array(exc_l)
+    if gname == "segments":
+        g = np.array(geo_l)
+        fkw["segment_start"], fkw["segment_end"] = g[:, 0, :], g[:, 1, :]
+    elif gname is not None:
+        fkw[gname] = np.array(geo_l)
+    fkw["position"] = np.array(pos_l)
+    obs = np.array(obs)
+    fn = getattr(magpy, "get" + field)
+    try:
+        ref = np.asarray(fn(name, obs.astype(float), **{k: v.astype(float) for k, v in fkw.items()}))
+        as_int = np.asarray(fn(name, obs.astype(np.int64), **{k: v.astype(np.int64) for k, v in fkw.items()}))
+        as_list = np.asarray(fn(name, obs.astype(np.int64).tolist(), **{k: v.astype(np.int64).tolist() for k, v in fkw.items()}))
+    except Exception as e:
+        return f"raised {type(e).__name__}: {str(e)[:120]}"
+    if not np.all(np.isfinite(ref)):
+        return None
+    sc = max(float(np.max(np.abs(ref))), 1e-300)
+    for tag, got in (("int64-arrays", as_int), ("python-int-lists", as_list)):
+        if got.shape != ref.shape or not np.all(np.isfinite(got)) or np.max(np.abs(got - ref)) > 1e-12 * sc:
+            err = float(np.max(np.abs(np.nan_to_num(got, nan=np.inf) - ref))) / sc if got.shape == ref.shape else float("inf")
+            return f"integer-typed input ({tag}) gives another result than the same numbers as floats: rel={err:.3g}"
+    return None
+
+
 # ------------------------------------------------------------------ (b) call forms
 def _ff(field, observers):
     return np.array(observers) * 2.0 + 1.0 if field in "BH" else None
@@ -605,6 +662,8 @@ def work(c):
             return run_core_cells(c)
         if c["part"] == "repaired":
             return run_repaired(c)
+        if c["part"] == "intdtype":
+            return run_intdtype(c)
         return run_core(c)
     except Exception as e:
         import traceback
@@ -632,6 +691,10 @@ def enumerate_cases(tier, seed=0):
                 for field in ("B", "H", "J", "M"):
                     for inside in ((False, True) if {"pos", "ori", "obs"} <= set(per) else (False,)):
                         cases.append({"part": "func", "cls": cls, "n": n, "per": per, "field": field, "inside": inside})
+    for cls in FUNC_CLASSES:
+        for K in INT_SCALES:
+            for field in ("B", "H"):
+                cases.append({"part": "intdtype", "cls": cls, "scale": K, "field": field})
     for cls in FORM_CLASSES:
         for field in ("B", "H", "J", "M"):
             for plen in (1, 3):
@@ -672,6 +735,8 @@ def run(tier, seed):
         elif c["part"] == "forms":
             for b in r:
                 viols.append({"key": f"C07|form|{c['cls']}|{c['field']}|{b.split(':')[0]}", "what": f"{c}: {b}", "case": c, "observed": b})
+        elif c["part"] == "intdtype":
+            viols.append({"key": f"C07|functional-integer-input|{c['cls']}|scale={c['scale']}|{r.split(' ')[0]}", "what": f"{c}: {r}", "case": c, "observed": r})
         elif c["part"] == "repaired":
             viols.append({"key": f"C07|repaired-mesh|{c['field']}|touch={'+'.join(c['touch']) or 'none'}", "what": f"{c}: {r}", "case": c, "observed": r})
         elif c["part"] == "corecells":
